@@ -523,6 +523,7 @@ func main() {
 		}
 		var hist []string
 		loadedPaths := map[string]bool{}
+		liveDirs := map[string]bool{}
 		np := 0
 		okHist := true
 		check := func(ev string) bool {
@@ -537,19 +538,24 @@ func main() {
 				}
 			}
 			if backend == "disk" {
+				// no store directory that existed after an earlier event may disappear (whatever the
+				// naming scheme of store directories is), and there is at least one per loaded location
 				have := map[string]bool{}
 				for _, d := range storeDirs(wd) {
 					have[d] = true
 				}
-				for p := range loadedPaths {
-					u, _ := url.Parse(w.CRL.URL(p))
-					// identifier of a single-URL CDP set = sha256(hex(sha256(url)))
-					h1 := sha256.Sum256([]byte(u.String()))
-					h2 := sha256.Sum256([]byte(hex.EncodeToString(h1[:])))
-					if !have[hex.EncodeToString(h2[:])] {
-						run.Violation("lifecycle.live-store-lost.after-"+ev, fmt.Sprintf("history %v: store directory of loaded location %s is gone", hist, p), &report.Replay{Case: hist})
+				for d := range liveDirs {
+					if !have[d] {
+						run.Violation("lifecycle.live-store-lost.after-"+ev, fmt.Sprintf("history %v: store directory %s is gone", hist, d), &report.Replay{Case: hist})
 						return false
 					}
+				}
+				if len(have) < len(loadedPaths) {
+					run.Violation("lifecycle.fewer-stores-than-loaded-locations.after-"+ev, fmt.Sprintf("history %v: %d loaded locations but %d store directories", hist, len(loadedPaths), len(have)), &report.Replay{Case: hist})
+					return false
+				}
+				for d := range have {
+					liveDirs[d] = true
 				}
 			}
 			return true
@@ -699,13 +705,11 @@ func listTmp(wd string) []string {
 	return out
 }
 
-var hex64 = regexp.MustCompile(`^[0-9a-f]{64}$`)
-
 func storeDirs(wd string) []string {
 	var out []string
 	ents, _ := os.ReadDir(wd)
 	for _, e := range ents {
-		if e.IsDir() && hex64.MatchString(e.Name()) {
+		if e.IsDir() && !tmpRe.MatchString(e.Name()) && e.Name() != "sub" {
 			out = append(out, e.Name())
 		}
 	}
